@@ -12,8 +12,12 @@ use std::path::PathBuf;
 use std::time::Duration;
 use worterbuch::{Config, PersistenceMode};
 
-async fn cfg_for(dir: &PathBuf) -> Config {
+async fn cfg_for(dir: &PathBuf, bufsize: Option<usize>) -> Config {
     let mut cfg = crate::core_drv::base_config().await;
+    if let Some(n) = bufsize {
+        // also the size of the queue between the core and the background writer
+        cfg.channel_buffer_size = n;
+    }
     cfg.use_persistence = true;
     cfg.persistence_mode = PersistenceMode::ReDB;
     cfg.data_dir = dir.to_string_lossy().to_string();
@@ -60,7 +64,8 @@ pub fn main_run(args: &[String]) -> i32 {
         std::fs::create_dir_all(&dir).ok();
         let mut names = Names::new(meaning.clone());
         let rt = tokio::runtime::Builder::new_multi_thread().worker_threads(2).enable_all().build().expect("runtime");
-        let node = rt.block_on(async { start(cfg_for(&dir).await, dir.clone()).await });
+        let bufsize = ops.iter().find(|r| s(r, "op") == "config").and_then(|r| r["channel_buffer_size"].as_u64()).map(|n| n as usize);
+        let node = rt.block_on(async { start(cfg_for(&dir, bufsize).await, dir.clone()).await });
         let Some(node) = node else {
             writeln!(out, "{}", json!({"op": "error", "what": "server did not start"})).ok();
             continue;
@@ -99,7 +104,7 @@ pub fn main_run(args: &[String]) -> i32 {
         let rt2 = tokio::runtime::Builder::new_multi_thread().worker_threads(2).enable_all().build().expect("runtime");
         let mut rec = json!({"op": "recovered", "flat": [], "error": "second server did not start"});
         for _ in 0..50 {
-            let n2 = rt2.block_on(async { start(cfg_for(&dir).await, dir.clone()).await });
+            let n2 = rt2.block_on(async { start(cfg_for(&dir, bufsize).await, dir.clone()).await });
             if let Some(n2) = n2 {
                 let p = rt2.block_on(probe(&n2.api, &names));
                 rec = json!({"op": "recovered", "flat": p["flat"]});
